@@ -3,7 +3,7 @@ from __future__ import annotations
 
 from hypothesis import strategies as st
 
-from vp.core import Disc, Recorder, derive_seed, hyp_collect, hyp_shrink, escape_bucket
+from vp.core import Disc, Recorder, derive_seed, hyp_collect, escape_bucket
 from vp.gen import xml as gx
 from vp.gen.c01_paths import path_asts
 from vp.ref import xdm
@@ -25,11 +25,13 @@ ASSUMPTIONS = [
     'order among the attributes / namespace nodes of one element is implementation-dependent: the order exposed by the node '
     'tree is adopted by the reference (consistency is demanded, not a particular order)',
     'Element root with fragment=None: evaluated with an implicit document node that never appears in results (documented); no '
-    'verdict when a path reaches that document upwards (parent/ancestor axes) - counted as ref:skip-dummy-doc-upward',
-    'fragment=True (element-topped tree): an absolute path with steps starts at the top element (fn:root()); XPDY0050 is accepted as well; the bare expression "/" gets no verdict there (counted)',
+    'verdict when an explicit step has that document on its axis (.., ancestor::, /self::node() ...: the implementation hides '
+    'it from node tests) - counted as ref:skip-dummy-doc-upward',
+    'fragment=True (element-topped tree): an absolute path with steps starts at the top element (fn:root()); XPDY0050 is accepted as well; the bare expression "/" gets no verdict there, nor as a sub-expression on an Element root with fragment=None where it denotes the hidden implicit document (counted)',
     'libxml2 differential excludes, by construction and counted: following/preceding evaluated from an attribute or namespace '
     'context node (libxml2 starts from the parent element), positional predicates over >= 2 attributes/namespace nodes of one '
-    'element (order is implementation-dependent); results containing namespace nodes are compared as multisets of (prefix, uri); '
+    'element (order is implementation-dependent), preceding:: evaluated from a child of the document node (libxml2 stops '
+    'at the first child of the document and so omits it: xmlXPathNextPrecedingInternal); results containing namespace nodes are compared as multisets of (prefix, uri); '
     'document nodes are not representable in lxml results and are dropped on both sides',
     'for ElementTree trees the in-scope namespaces are xml plus the namespaces argument (p, q)',
     'unprefixed element name tests select no-namespace names (no default element namespace is configured)',
@@ -208,7 +210,8 @@ def _pred_kinds(preds):
 def culprit(ast, rctx, exp_fn, obs_fn, ref, ctx_ok=lambda n: True, depth=0):
     """Name the first component at which observed and expected diverge, and for a step the kinds of the
     context nodes from which that step ALONE already diverges ('combine' when no single context node does).
-    exp_fn(ast, ctx) -> (comparable, ref nodes); obs_fn(ast, ctx) -> comparable; ctx_ok(n): n usable as context."""
+    exp_fn(ast, ctx) -> (comparable, ref nodes); obs_fn(ast, ctx) -> comparable; ctx_ok(n): n usable as context.
+    -> 'kind/component/context-class[/detail]' (root cause first, incidental detail last)"""
     for sub, (what, idx) in prefixes(ast):
         exp, _nodes = exp_fn(sub, rctx)
         got = obs_fn(sub, rctx)
@@ -218,10 +221,10 @@ def culprit(ast, rctx, exp_fn, obs_fn, ref, ctx_ok=lambda n: True, depth=0):
         if what == 'filter':
             inner = _pred_culprit(sub[2], exp_fn(['fpath', sub[1], [], []], rctx)[1], exp_fn, obs_fn, ref, ctx_ok, depth)
             if inner is not None:
-                return inner[0], 'filter[pred>' + inner[1] + ']', inner[2]
-            return kind, 'filter[' + _pred_kinds(sub[2]) + ']', ''
+                return inner + '/in-filter-predicate'
+            return f'{kind}/filter/-/{_pred_kinds(sub[2])}'
         if what != 'step':
-            return kind, what, ''
+            return f'{kind}/{what}/-'
         steps = _steps_of(sub)
         st_ = steps[idx]
         if sub[0] == 'path':
@@ -250,21 +253,20 @@ def culprit(ast, rctx, exp_fn, obs_fn, ref, ctx_ok=lambda n: True, depth=0):
                 bad_diffs.add(_tag(g1) if isinstance(g1, tuple) else _tag(e1) + '-expected' if isinstance(e1, tuple) else diff_kind(e1, g1))
                 if st_[3] and exp_fn(bare, n)[0] != obs_fn(bare, n):
                     pred_only = False
+        psuffix = '/' + _pred_kinds(st_[3]) if st_[3] else ''
         if bad_kinds:
             if st_[3] and pred_only:
                 inner = _pred_culprit(st_[3], [c for n in base_nodes[:60] if ctx_ok(n) for c in exp_fn(bare, n)[1]],
                                       exp_fn, obs_fn, ref, ctx_ok, depth)
                 if inner is not None:
-                    return inner[0], label + '[pred>' + inner[1] + ']', inner[2]
-                label += '[' + _pred_kinds(st_[3]) + ']'
+                    return inner + '/in-predicate'
+                psuffix = '/predicate-only:' + _pred_kinds(st_[3])
             kind = bad_diffs.pop() if len(bad_diffs) == 1 else 'mixed'
-            return kind, label, 'ctx-' + '+'.join(sorted(bad_kinds))
-        if st_[3]:
-            label += '[' + _pred_kinds(st_[3]) + ']'
+            return f'{kind}/{label}/ctx-' + '+'.join(sorted(bad_kinds)) + psuffix
         usable = [n for n in base_nodes if ctx_ok(n)]
-        return kind, label, 'combine-%s' % ('multi' if len(base_nodes) > 1 else 'single') + \
-            ('' if len(usable) == len(base_nodes) else '-from-' + '+'.join(sorted({n.kind for n in base_nodes if not ctx_ok(n)})))
-    return 'unstable', 'whole', ''
+        return f'{kind}/{label}/combine-%s' % ('multi' if len(base_nodes) > 1 else 'single') + \
+            ('' if len(usable) == len(base_nodes) else '-from-' + '+'.join(sorted({n.kind for n in base_nodes if not ctx_ok(n)}))) + psuffix
+    return 'unstable/whole/-'
 
 
 def _pred_paths(p):
@@ -357,7 +359,8 @@ def judge_ref(case, rec: Recorder | None = None) -> list[Disc]:
         if im.dummy and info.doc_upward:
             verdict = False
             classes.append('ref:skip-dummy-doc-upward')
-        elif im.tc['top'] == 'element' and not im.dummy and _has_bare_root(ast):
+        elif im.tc['top'] == 'element' and _has_bare_root(ast) and not (im.dummy and ast == ['path', 1, []]):
+            # element-topped tree: "/" alone is undefined (fragment) or the hidden implicit document (Element root)
             verdict = False
             classes.append('ref:skip-bare-root-in-fragment')
         got = {v: im.run(v, text, rctx) for v in VERSIONS}
@@ -379,8 +382,8 @@ def judge_ref(case, rec: Recorder | None = None) -> list[Disc]:
                 elif isinstance(g1, tuple) and _parse_fails('1.0', text):
                     discs.append(Disc(f'C01/ref/parse-error/1.0/{g1[1]}/{error_class(ast, "1.0")}', exp, g1, detail()))
                 else:
-                    kind, label, cc = culprit(ast, rctx, exp_fn, lambda a, c: im.run('1.0', render(a), c), im.ref, ctx_ok)
-                    discs.append(Disc(f'C01/ref/{kind}/{label}/{cc}', exp, g1, detail()))
+                    cu = culprit(ast, rctx, exp_fn, lambda a, c: im.run('1.0', render(a), c), im.ref, ctx_ok)
+                    discs.append(Disc(f'C01/ref/{cu}', exp, g1, detail()))
         # versions metamorphic (independent of the reference)
         for v in VERSIONS[1:]:
             gv = got[v]
@@ -396,10 +399,9 @@ def judge_ref(case, rec: Recorder | None = None) -> list[Disc]:
                 elif isinstance(gv, tuple) and gv[0] == 'error' and _parse_fails(v, text):
                     discs.append(Disc(f'C01/versions/{v}/parse-error/{gv[1]}/{error_class(ast, v)}', _tag(g1), gv, detail()))
                 else:
-                    kind, label, cc = culprit(
-                        ast, rctx, lambda a, c: (im.run('1.0', render(a), c), im.ev.evaluate(a, c)[0]),
-                        lambda a, c: im.run(v, render(a), c), im.ref, ctx_ok)
-                    discs.append(Disc(f'C01/versions/{v}/{kind}/{label}/{cc}', g1, gv, detail()))
+                    cu = culprit(ast, rctx, lambda a, c: (im.run('1.0', render(a), c), im.ev.evaluate(a, c)[0]),
+                                 lambda a, c: im.run(v, render(a), c), im.ref, ctx_ok)
+                    discs.append(Disc(f'C01/versions/{v}/{cu}', g1, gv, detail()))
         if rec is not None:
             if info.reverse:
                 classes.append('ref:reverse-axis')
@@ -509,7 +511,8 @@ def judge_lxml(case, rec: Recorder | None = None) -> list[Disc]:
     def norm_ref(a, ctx):
         ns_ = im.ev.evaluate(a, ctx)[0]
         if any(n.kind == 'namespace' for n in ns_):
-            return ('ns', sorted((n.name, n.value) if n.kind == 'namespace' else ('?', '?') for n in ns_))
+            return ('ns', sorted((n.name, n.value) if n.kind == 'namespace' else ('?', '?') for n in ns_
+                                 if n.kind != 'document'))
         return [n.addr for n in ns_ if n.kind != 'document']
 
     def norm_ep(a, ctx):
@@ -519,6 +522,8 @@ def judge_lxml(case, rec: Recorder | None = None) -> list[Disc]:
         if any(len(x) and isinstance(x[-1], tuple) and x[-1][0] == 'ns' for x in r):
             out = []
             for x in r:
+                if x == ():
+                    continue
                 n = ref.by_addr.get(x)
                 out.append((n.name, n.value) if n is not None and n.kind == 'namespace' else ('?', '?'))
             return ('ns', sorted(out))
@@ -534,6 +539,8 @@ def judge_lxml(case, rec: Recorder | None = None) -> list[Disc]:
             classes.append('lxml:excluded-following/preceding-from-attr-or-ns')
         elif info.order_dep:
             classes.append('lxml:excluded-positional-over-attrs-or-ns')
+        elif info.preceding_from_doc_child:
+            classes.append('lxml:excluded-preceding-from-document-child')
         else:
             classes.append('lxml:verdict')
             want = lx(ast, rctx)
@@ -547,8 +554,8 @@ def judge_lxml(case, rec: Recorder | None = None) -> list[Disc]:
             lx_fn = lambda a, c: (lx(a, c), im.ev.evaluate(a, c)[0])
             if r1 != want:
                 # the two oracles disagree: no verdict on the implementation; must be resolved in the harness
-                kind, label, cc = culprit(ast, rctx, lx_fn, norm_ref, ref, ctx_ok)
-                discs.append(Disc(f'C01/ORACLES-DISAGREE/libxml2-vs-reference/{kind}/{label}/{cc}', want, r1, detail()))
+                cu = culprit(ast, rctx, lx_fn, norm_ref, ref, ctx_ok)
+                discs.append(Disc(f'C01/ORACLES-DISAGREE/libxml2-vs-reference/{cu}', want, r1, detail()))
                 classes.append('lxml:oracles-disagree')
             elif g1 != want:
                 if isinstance(g1, tuple) and g1[0] == 'escape':
@@ -556,8 +563,10 @@ def judge_lxml(case, rec: Recorder | None = None) -> list[Disc]:
                 elif isinstance(g1, tuple) and g1[0] == 'error' and _parse_fails('1.0', text):
                     discs.append(Disc(f'C01/lxml/parse-error/1.0/{g1[1]}/{error_class(ast, "1.0")}', _tag(want), g1, detail()))
                 else:
-                    kind, label, cc = culprit(ast, rctx, lx_fn, norm_ep, ref, ctx_ok)
-                    discs.append(Disc(f'C01/lxml/{kind}/{label}/{cc}', want, g1, detail()))
+                    # libxml2 and the reference agree on this path: attribute the divergence with the reference, which
+                    # unlike libxml2 can be evaluated from every kind of context node
+                    cu = culprit(ast, rctx, lambda a, c: (norm_ref(a, c), im.ev.evaluate(a, c)[0]), norm_ep, ref)
+                    discs.append(Disc(f'C01/lxml/{cu}', want, g1, detail()))
         if rec is not None:
             nsteps = sum(1 for _ in xdm.iter_steps(ast))
             rec.case([spec, 'lxml', text, list(map(repr, rctx.addr))],
@@ -585,8 +594,6 @@ def judge_api(case, rec: Recorder | None = None) -> list[Disc]:
         version = VERSIONS[(pc['item'] or 0) % 4]
         P = type(parser(version))
         item = None if pc['item'] is None else elems[pc['item'] % len(elems)]
-        if item is not None and fr is True and cfg['backend'] == 'lxml' and False:
-            item = None
 
         def fmt(ctx, x):
             if not hasattr(x, 'node_kind'):
@@ -644,8 +651,12 @@ def judge_api(case, rec: Recorder | None = None) -> list[Disc]:
                 got = call(fn)
                 if got != base:
                     xml = xml or gx.to_xml(spec)
-                    kind = 'length' if isinstance(got, list) and isinstance(base, list) and len(got) != len(base) else \
-                        'items' if isinstance(got, list) and isinstance(base, list) else f'{_tag2(base)}->{_tag2(got)}'
+                    if isinstance(got, list) and isinstance(base, list):
+                        kind = 'length' if len(got) != len(base) else 'items'
+                    elif isinstance(base, list) and got[0] == 'non-list':
+                        kind = 'single-value-unwrapped/' + pc['ast'][0]
+                    else:
+                        kind = f'{_tag2(base)}->{_tag2(got)}'
                     discs.append(Disc(f'C01/api/{name}/{kind}', base, got, f'path={text} parser={version} cfg={cfg} xml={xml}'))
         if rec is not None:
             rec.case([spec, cfg, text, version, pc['item']], nontrivial=isinstance(base, list) and len(base) >= 1,
@@ -685,7 +696,7 @@ def jobs(tier, seed):
     q = tier == 'quick'
     out = []
     nr, nl, na = (9, 4, 2) if q else (9, 5, 2)
-    per_r, per_l, per_a = (330, 420, 250) if q else (5000, 6500, 4000)
+    per_r, per_l, per_a = (420, 520, 380) if q else (3000, 4000, 3000)
     me, ms = (12, 4) if q else (30, 5)
     for i in range(nr):
         out.append({'check': 'ref', 'shard': i, 'n': per_r, 'max_elems': me, 'n_paths': 16, 'max_steps': ms,
@@ -707,7 +718,7 @@ def run_job(job, rec: Recorder):
 
 def shrink_job(job, bucket, budget):
     chk = job['check']
-    return hyp_shrink(_strategy(job), _JUDGES[chk], bucket, job['n'], job['seed'], budget)
+    return gx.find_and_minimize(_strategy(job), _JUDGES[chk], bucket, job['n'], job['seed'], min(budget, 250))
 
 
 def judge(check, case):
